@@ -314,12 +314,27 @@ structure RRes (T : Types) where
   /-- `Ok(())` -/
   ok : Bool
 
-/-- the value stored by `self.f = rhs` when `rhs` does not mention `cfg`
-(`Gen.Reload.reloadResetRhs` pins the two right-hand sides: `reset_rhs_as_modelled`) -/
+/-- the constant a constructor stores in a field whose initialiser mentions neither `cfg` nor the
+command line (`Gen.Reload.ctorConstRhs` lists the right-hand sides: `Vec::new()`, `None`, `0`,
+`false`, `HashSet::default()` …) -/
+def typedInit (W : World) : (f : Field) → Val W.toTypes f
+  | .cfg_paths => ([] : List Nat)
+  | .cur_cfg_idx => (0 : Nat)
+  | .cur_keys => ([] : List Nat)
+  | .prev_keys => ([] : List Nat)
+  | .prev_layer => (0 : Nat)
+  | .ticks_since_idle => (0 : Nat)
+  | .macro_on_press_cancel_duration => (0 : Nat)
+  | .live_reload_requested => false
+  | .waiting_for_idle => ([] : List W.OnIdle)
+  | f => W.init0 f
+
+/-- the value stored by `self.f = rhs` when `rhs` does not mention `cfg`: `cur_layer` for
+`prev_layer`, otherwise the same constant the constructors store (`reset_rhs_as_modelled` checks,
+on the text regenerated from the source, that every such right-hand side IS the constructor's) -/
 def resetVal (curLayer : Nat) : (f : Field) → Val W.toTypes f
   | .prev_layer => curLayer
-  | .macro_on_press_cancel_duration => (0 : Nat)
-  | f => W.init0 f
+  | f => typedInit W f
 
 /-- outcome of one statement: early return, or continue with (the `let cur_layer` binding, state, channel) -/
 inductive StepOut (T : Types) where
@@ -338,6 +353,8 @@ def stepOne (env : Env W.toTypes) (c : W.Cfg) (cur : Option Nat) (s : KSt W) (lo
     if f = .prev_layer ∧ cur = none then .error (.badStep "cur_layer used before its binding")
     else .ok (.cont cur (s.set f (resetVal (W := W) (cur.getD 0) f)) log)
   | .bindCurLayer => .ok (.cont (some (W.currentLayer (s .layout))) s log)
+  -- an infallible helper that writes no field (`Gen.Reload.effectWrites = []`): it only talks to the OS sink
+  | .effect _ => .ok (.cont cur s log)
   | .notify m =>
     if m = "ConfigFileReload" then
       if env.tx then
@@ -536,14 +553,7 @@ its constant (`constVal`: `Gen.Reload.ctorConstRhs` lists the right-hand sides: 
 def constVal (W : World) (paths : List Nat) (idx : Nat) : (f : Field) → Val W.toTypes f
   | .cfg_paths => paths
   | .cur_cfg_idx => idx
-  | .cur_keys => ([] : List Nat)
-  | .prev_keys => ([] : List Nat)
-  | .prev_layer => (0 : Nat)
-  | .ticks_since_idle => (0 : Nat)
-  | .macro_on_press_cancel_duration => (0 : Nat)
-  | .live_reload_requested => false
-  | .waiting_for_idle => ([] : List W.OnIdle)
-  | f => W.init0 f
+  | f => typedInit W f
 
 def freshAt (ctor : List (Field × Bool)) (paths : List Nat) (idx : Nat) (c : W.Cfg) : KSt W :=
   ⟨fun f =>
@@ -611,25 +621,25 @@ def classify : Field → FClass
   | .live_reload_requested => .runtimeReset
   | .cur_keys => .runtimeRetained
   | .prev_keys => .runtimeRetained
-  | .scroll_state => .runtimeRetained
-  | .hscroll_state => .runtimeRetained
-  | .move_mouse_state_vertical => .runtimeRetained
-  | .move_mouse_state_horizontal => .runtimeRetained
-  | .move_mouse_speed_modifiers => .runtimeRetained
-  | .sequence_state => .runtimeRetained
+  | .scroll_state => .runtimeReset
+  | .hscroll_state => .runtimeReset
+  | .move_mouse_state_vertical => .runtimeReset
+  | .move_mouse_state_horizontal => .runtimeReset
+  | .move_mouse_speed_modifiers => .runtimeReset
+  | .sequence_state => .runtimeReset
   | .dynamic_macros => .runtimeRetained
-  | .dynamic_macro_replay_state => .runtimeRetained
-  | .dynamic_macro_record_state => .runtimeRetained
-  | .override_states => .runtimeRetained
-  | .caps_word => .runtimeRetained
-  | .waiting_for_idle => .runtimeRetained
-  | .vkeys_pending_release => .runtimeRetained
-  | .ticks_since_idle => .runtimeRetained
-  | .movemouse_buffer => .runtimeRetained
-  | .unmodded_keys => .runtimeRetained
-  | .unmodded_mods => .runtimeRetained
-  | .unshifted_keys => .runtimeRetained
-  | .last_pressed_key => .runtimeRetained
+  | .dynamic_macro_replay_state => .runtimeReset
+  | .dynamic_macro_record_state => .runtimeReset
+  | .override_states => .runtimeReset
+  | .caps_word => .runtimeReset
+  | .waiting_for_idle => .runtimeReset
+  | .vkeys_pending_release => .runtimeReset
+  | .ticks_since_idle => .runtimeReset
+  | .movemouse_buffer => .runtimeReset
+  | .unmodded_keys => .runtimeReset
+  | .unmodded_mods => .runtimeReset
+  | .unshifted_keys => .runtimeReset
+  | .last_pressed_key => .runtimeReset
   | .saved_clipboard_content => .runtimeRetained
 
 /-! ### specification: a successful reload is a restart -/
@@ -684,6 +694,7 @@ def assigned (steps : List RStep) : List Field :=
 def stepKnown : RStep → Bool
   | .unknown _ => false
   | .notify m => m == "ConfigFileReload" || m == "LayerChange"
+  | .effect m => m == "release_held_mouse_buttons"
   | _ => true
 
 end KVerif.Reload
